@@ -307,7 +307,7 @@ def eigen_decision_margins(A):
         sq = onp.sqrt(a3)
         c3 = cxx * cyz * cyz + cyy * czx * czx - 2.0 * cxy * cyz * czx + czz * (cxy * cxy - cxx * cyy)
         rr = -0.5 * c3 * a3 * sq
-        ev2 = 2.0 * onp.cos(onp.arccos(min(abs(rr), 1.0)) / 3.0) * onp.sign(rr) / sq
+        ev2 = 2.0 * onp.cos(onp.arccos(min(abs(rr), 1.0)) / 3.0) * (-1.0 if rr < 0 else 1.0) / sq
         C = onp.array([[cxx - ev2, cxy, czx], [cxy, cyy - ev2, cyz], [czx, cyz, czz - ev2]])
         k = (C * C).sum(axis=1)
         if k[1] <= k[0] and k[2] <= k[0]:
